@@ -140,8 +140,8 @@ fn generalise(rng: &mut Rng, h: &Hier, jar_names: &[S], ts: &S, spoil: bool) -> 
 	}
 }
 
-const KINDS: [(&str, usize); 20] = [
-	("shared-delegate", 3), ("indy-extra", 2), ("only-indy", 1),
+const KINDS: [(&str, usize); 21] = [
+	("chain", 4), ("shared-delegate", 3), ("indy-extra", 2), ("only-indy", 1),
 	("plain", 5), ("bridge-flagged", 5), ("bridge-unflagged", 5), ("flagged-any-signature", 2), ("not-synthetic", 3),
 	("zero-callees", 2), ("two-callees", 3), ("same-callee-twice", 2), ("array-callee-extra", 2), ("only-array-callee", 1),
 	("arity", 3), ("bad-type", 4), ("private-static-final", 3), ("flagged-private-static-final", 2), ("no-code", 2),
@@ -175,6 +175,29 @@ fn gen_pattern(rng: &mut Rng, jar: &mut Vec<AClass>, ci: usize, h: &Hier, kind: 
 	let sdesc = join_desc(&ps, &rs);
 	let vis = *rng.pick(&[ACC_PUBLIC, ACC_PUBLIC, ACC_PROTECTED, 0][..]);
 	counts(&format!("pattern:{kind}"));
+	if kind == "chain" {
+		// a bridge whose delegate is itself a synthetic bridge of the jar (A -> B -> C): in B's class or in a related class,
+		// under a more general descriptor or another name, declared BEFORE or after B
+		let existing: Vec<(S, AMeth)> = jar.iter().flat_map(|c| c.methods.iter().filter(|m| m.is(ACC_SYNTHETIC) && m.calls.as_ref().map(|v| v.len() == 1 && v[0].kind != CallKind::Dynamic).unwrap_or(false)).map(|m| (c.name.clone(), m.clone())).collect::<Vec<_>>()).collect();
+		if existing.is_empty() { counts("pattern:chain:no-bridge-to-extend"); return; }
+		let (bcls, bm) = rng.pick(&existing[..]).clone();
+		let mut related: Vec<S> = jar_names.iter().filter(|n| h.ancestors(n).contains(&bcls)).cloned().collect();
+		let target_cls = if related.is_empty() || rng.chance(2, 3) { bcls.clone() } else { rng.pick(&related[..]).clone() };
+		related.clear();
+		let ti = jar.iter().position(|c| c.name == target_cls).unwrap();
+		let mut a = AMeth { name: bm.name.clone(), desc: bm.desc.clone(), flags: vis | ACC_SYNTHETIC | if rng.chance(1, 2) { ACC_BRIDGE } else { 0 }, calls: Some(vec![call(if target_cls == bcls { CallKind::Virtual } else { *rng.pick(&[CallKind::Virtual, CallKind::Special][..]) }, if rng.chance(1, 3) { &target_cls } else { &bcls }, &bm.name, &bm.desc)]) };
+		if let Some((mut ps, mut ret)) = split_desc(&a.desc) {
+			let objp: Vec<usize> = (0..=ps.len()).filter(|&i| { let t = if i < ps.len() { &ps[i] } else { &ret }; t.first() == Some(&('L' as u32)) && *t != obj(&object()) }).collect();
+			if !objp.is_empty() && rng.chance(3, 4) { let i = *rng.pick(&objp[..]); if i < ps.len() { ps[i] = obj(&object()); } else { ret = obj(&object()); } a.desc = join_desc(&ps, &ret); }
+		}
+		if jar[ti].methods.iter().any(|x| x.name == a.name && x.desc == a.desc) { a.name = { let mut n = cps_str("chain$"); n.extend(&bm.name); n }; }
+		if !allow_dup && jar[ti].methods.iter().any(|x| x.name == a.name && x.desc == a.desc) { counts("pattern:chain:key-taken"); return; }
+		// before B (so that the pair of A is handled first) or at the end
+		let at = match jar[ti].methods.iter().position(|x| x.name == bm.name && x.desc == bm.desc) { Some(p) if rng.chance(2, 3) => p, _ => jar[ti].methods.len() };
+		jar[ti].methods.insert(at, a);
+		counts(if target_cls == bcls { "pattern:chain:same-class" } else { "pattern:chain:subclass" });
+		return;
+	}
 	if kind == "shared-delegate" {
 		// a second (third, ...) bridge calling the IDENTICAL delegate reference of a bridge the jar already has, placed in a
 		// descendant, an ancestor or an unrelated class: specialized_to_bridge keeps one of them (get_higher_method)
